@@ -22,7 +22,7 @@ Not decided: the elliptic-curve mathematics (normalisation of produced signature
 import re
 
 from fvlib.core import (CFG, CallGraph, arm_regions, assignments, bool_consumers, call_blocks, calls, callee_matches,
-                        callee_name, describe, short)
+                        callee_name, describe, describe_place, match_commuted, short)
 
 SF = "fuel_crypto::secp256::signature_format::"
 VMC = "fuel_vm::interpreter::crypto::"
@@ -72,31 +72,32 @@ def run(F, rep, tier, allfacts):
     rep.saw(n)
     where = "%s:%s" % (f["file"], f["line"])
     writes = [(p, rv_desc(f, rv)) for i, j, p, rv, line in assignments(f) if p[0] == 1 and len(p) > 1]
-    want = r"^BitOr\(Shl\(arg:recovery_id\.is_y_odd,const:7\),BitAnd\(arg:signature\[(const:)?32\],const:127\)\)$"
-    rep.check(len(writes) == 1 and re.match(want, writes[0][1]) is not None, "BIT-sigformat", "encode:sig[32]=(v<<7)|(sig[32]&0x7f)", where,
+    want = r"^BitOr\(Shl\(arg:\w+\.is_y_odd,const:7\),BitAnd\(arg:(\w+)\[(const:)?32\],const:127\)\)$"
+    rep.check(len(writes) == 1 and match_commuted(want, writes[0][1]) is not None, "BIT-sigformat", "encode:sig[32]=(v<<7)|(sig[32]&0x7f)", where,
               "encode_signature must write exactly signature[32] = (is_y_odd << 7) | (signature[32] & 0x7f); writes %s" % writes)
     idx_ok = all(index_is_32(f, p) for p, _ in writes)
     rep.check(idx_ok, "BIT-sigformat", "encode:only-byte-32-written", where, "writes into the signature must target index 32 only: %s" % writes)
     # normalisation assertion: Shr(sig[32],7) == 0 else panic, before the write
     cfg = CFG(f)
     from fvlib.core import guards
-    gs = [g for g in guards(f) if g["op"] == "Eq" and re.match(r"^Shr\(arg:signature\[(const:)?32\],const:7\)$", g["a_desc"]) and g["b_desc"] == "const:0"]
+    gs = [g for g in guards(f) if g["op"] == "Eq" and ((re.match(r"^Shr\(arg:\w+\[(const:)?32\],const:7\)$", g["a_desc"]) and g["b_desc"] == "const:0") or
+                                                      (re.match(r"^Shr\(arg:\w+\[(const:)?32\],const:7\)$", g["b_desc"]) and g["a_desc"] == "const:0"))]
     pan = call_blocks(f, r"panicking::panic")
     wb = [i for i, j, p, rv, line in assignments(f) if p[0] == 1 and len(p) > 1]
     ok = len(gs) == 1 and pan and wb and all(b in cfg.reachable_incl(gs[0]["f"]) for b in pan) and not any(b in cfg.reachable_incl(gs[0]["t"]) for b in pan) and \
         all(cfg.dominates(gs[0]["t"], b) for b in wb)
     rep.check(ok, "BIT-sigformat", "encode:asserts-normalised-input", where, "encode_signature must assert signature[32] >> 7 == 0 before encoding")
     rets = [rv_desc(f, rv) for i, j, p, rv, line in assignments(f) if p == [0]]
-    rep.check(rets == ["arg:signature"], "BIT-sigformat", "encode:returns-the-same-array", where, "returns %s" % rets)
+    rep.check(len(rets) == 1 and re.match(r"^arg:\w+$", rets[0]) is not None and all(describe_place(f, [p[0]]) == rets[0] for p, _ in writes), "BIT-sigformat", "encode:returns-the-same-array", where, "returns %s" % rets)
 
     n, f = F.find(r"^" + re.escape(SF) + "decode_signature$", ["fuel_crypto"], one=True)
     rep.saw(n)
     where = "%s:%s" % (f["file"], f["line"])
     writes = [(p, rv_desc(f, rv)) for i, j, p, rv, line in assignments(f) if p[0] == 1 and len(p) > 1]
-    rep.check(len(writes) == 1 and re.match(r"^BitAnd\(arg:signature\[(const:)?32\],const:127\)$", writes[0][1]) is not None and index_is_32(f, writes[0][0]),
+    rep.check(len(writes) == 1 and match_commuted(r"^BitAnd\(arg:\w+\[(const:)?32\],const:127\)$", writes[0][1]) is not None and index_is_32(f, writes[0][0]),
               "BIT-sigformat", "decode:sig[32]&=0x7f", where, "decode_signature must clear exactly bit 7 of byte 32; writes %s" % writes)
     tup = [[describe(f, x, depth=14) for x in rv[3]] for i, j, p, rv, line in assignments(f) if p == [0] and rv[0] == "agg"]
-    ok = len(tup) == 1 and tup[0][0] == "arg:signature" and re.match(r"^agg:RecoveryId(::RecoveryId)?\(Ne\(BitAnd\(arg:signature\[(const:)?32\],const:128\),const:0\)\)$", tup[0][1]) is not None
+    ok = len(tup) == 1 and re.match(r"^arg:\w+$", tup[0][0]) is not None and match_commuted(r"^agg:RecoveryId(::RecoveryId)?\(Ne\(BitAnd\(arg:\w+\[(const:)?32\],const:128\),const:0\)\)$", tup[0][1]) is not None
     rep.check(ok, "BIT-sigformat", "decode:is_y_odd=(sig[32]&0x80)!=0", where, "returns %s" % tup)
     # the parity read precedes the clearing write
     rd = [i for i, j, p, rv, line in assignments(f) if rv[0] == "bin" and rv[1] == "BitAnd" and describe(f, rv[3]) == "const:128"]
